@@ -263,7 +263,7 @@ pub fn judge(case: &Case, o: &Outcome) -> Vec<(String, String)> {
 
 pub fn run(args: &Args) -> i32 {
     let thorough = args.tier == Tier::Thorough;
-    let n = if thorough { 3 } else { 2 };
+    let n = if thorough { 4 } else { 3 };
     let bound = 2;
     let mut rep = Report::new("C09", args.tier, args.seed, "model_checking");
     rep.exhaustive = true;
